@@ -125,6 +125,50 @@ def model_pool(n=NPROC):
     return Pool([MODEL_BIN], n)
 
 
+# ----------------------------------------------------------------------------- real binary
+
+_cli_counter = [0]
+_cli_lock = threading.Lock()
+
+
+def run_cli(argv, files=None, stdin=b"", mtimes=None, timeout=60, keep=False):
+    """run the REAL cfn-guard binary (built from /repo) in a scratch directory; `{DIR}` in argv is
+    replaced by that directory.  Returns dict(code, stdout, stderr)."""
+    with _cli_lock:
+        _cli_counter[0] += 1
+        n = _cli_counter[0]
+    d = os.path.join(TMP, "cli-%d-%d" % (os.getpid(), n))
+    shutil.rmtree(d, ignore_errors=True)
+    os.makedirs(d)
+    for name, content in (files or {}).items():
+        path = os.path.join(d, name)
+        os.makedirs(os.path.dirname(path), exist_ok=True)
+        with open(path, "wb") as f:
+            f.write(content if isinstance(content, bytes) else content.encode())
+    for name, t in (mtimes or {}).items():
+        os.utime(os.path.join(d, name), (t, t))
+    args = [CLI_BIN] + [a.replace("{DIR}", d) for a in argv]
+    env = dict(os.environ)
+    env["NO_COLOR"] = "1"
+    try:
+        p = subprocess.run(args, input=stdin if isinstance(stdin, bytes) else stdin.encode(), cwd=d,
+                           stdout=subprocess.PIPE, stderr=subprocess.PIPE, timeout=timeout, env=env)
+        out = {"code": p.returncode, "stdout": p.stdout.decode("utf-8", "replace").replace(d, "{DIR}"),
+               "stderr": p.stderr.decode("utf-8", "replace").replace(d, "{DIR}")}
+    except subprocess.TimeoutExpired:
+        out = {"code": "timeout", "stdout": "", "stderr": ""}
+    if not keep:
+        shutil.rmtree(d, ignore_errors=True)
+    return out
+
+
+def run_cli_many(jobs, n=NPROC):
+    """jobs: list of kwargs dicts for run_cli; results in order"""
+    from concurrent.futures import ThreadPoolExecutor
+    with ThreadPoolExecutor(max_workers=n) as ex:
+        return list(ex.map(lambda j: run_cli(**j), jobs))
+
+
 # ----------------------------------------------------------------------------- canonical forms
 
 def canon_qr_rust(q):
